@@ -282,3 +282,39 @@ R.contract(
         ("rows", _RL_ROWS % "ri")])},
     extra={"assume_asserts": [0], "nullable": {}},
     props=["C20"])
+
+
+def CROSSCHECK():
+    from vcgen.crosscheck import Case
+
+    class FV:
+        def __init__(self, position):
+            self.position = position
+
+    class FR:
+        def __init__(self, positions, sample_id):
+            self.vs, self.sample_id = [FV(p) for p in positions], sample_id
+
+        def __iter__(self):
+            return iter(self.vs)
+
+    def gen(rng):
+        universe = sorted(rng.sample(range(1, 30), rng.randint(1, 8)))
+        phased = sorted(rng.sample(universe, rng.randint(1, len(universe))))
+        reads = []
+        for _ in range(rng.randint(0, 5)):
+            ps = sorted(rng.sample(universe, rng.randint(1, min(4, len(universe)))))
+            reads.append(dict(__class__="Read", variants=[dict(__class__="Variant", position=p, reference_allele=0, alternative_allele=0) for p in ps], sample_id=rng.randint(0, 1),
+                              name=0, source_id=0))
+        master = sorted(rng.sample(phased, rng.randint(0, len(phased)))) if rng.random() < 0.5 else None
+        hets = {0: set(rng.sample(universe, rng.randint(0, len(universe)))), 1: set(rng.sample(universe, rng.randint(0, len(universe))))} if rng.random() < 0.5 else None
+        return dict(phased_positions=phased, reads=reads, master_block=master, heterozygous_positions=hets)
+
+    def real(inp):
+        from whatshap.cli.phase import find_components
+        reads = [FR([v["position"] for v in r["variants"]], r["sample_id"]) for r in inp["reads"]]
+        try:
+            return ("ok", dict(find_components(inp["phased_positions"], reads, inp["master_block"], inp["heterozygous_positions"])), {})
+        except Exception as e:      # noqa: BLE001
+            return ("raise", type(e).__name__)
+    return [Case("find_components", gen, real, n=80, probe=lambda inp: list(range(0, 31)))]
